@@ -78,6 +78,15 @@ func execEncode(in val.V) val.V {
 					}
 				}
 				scribble(doc)
+			case 11:
+				// an attempt to write the member to a writer that fails somewhere: it must leave no trace, neither in the
+				// member nor in what is encoded next
+				w := &faultWriter{script: op.At(2).Items()}
+				var dst io.Writer = w
+				if len(val.String(op))%2 == 0 {
+					dst = byteFaultWriter{w}
+				}
+				_, _ = m.WriteTo(dst)
 			case 8:
 				// the member is overwritten by decoding a wire text into it (it may have clones that share its storage)
 				_ = m.UnmarshalText([]byte("data: " + op.At(2).Str() + "\n\n"))
@@ -201,9 +210,19 @@ func genEncodeOps(c *Ctx, ops []val.V, t int, withNul bool) []val.V {
 		case x < 93:
 			ops = append(ops, val.L(val.N(3), tv, val.Z(retryValues[r.Intn(len(retryValues))])))
 			c.Count("op:retry")
-		case x < 96:
+		case x < 95:
 			ops = append(ops, val.L(val.N(8), tv, val.S(rng.Pick(r, []string{"fresh", "x", "message", "id: 7", " lead"}))))
 			c.Count("op:unmarshal-into")
+		case x < 97:
+			// WriteTo on a writer that fails at call k, accepting j bytes of it (or takes everything and then fails)
+			ncalls := r.Intn(12)
+			script := make([]val.V, ncalls+1)
+			for i := 0; i < ncalls; i++ {
+				script[i] = val.L()
+			}
+			script[ncalls] = val.L(val.Int(r.Intn(40)), val.N(uint64(1+r.Intn(9))))
+			ops = append(ops, val.L(val.N(11), tv, val.List(script)))
+			c.Count("op:failed-write")
 		default:
 			text := genPayload(r)
 			if !withNul {
@@ -320,6 +339,25 @@ func genEncode(c *Ctx) {
 				ops = append(ops, dataOp(t, "for-"+string(rune('0'+t))))
 			}
 			c.Count("exhaustive-clone-then-append")
+			c.Emit(val.List(ops))
+		}
+	}
+	// directed: a message with every kind of line is written to a writer that fails after j bytes (every j up to its
+	// length), then an ordinary message is built and everything is encoded
+	for j := 0; j <= 60; j++ {
+		for _, calls := range []int{0, 2} {
+			script := []val.V{}
+			for i := 0; i < calls; i++ {
+				script = append(script, val.L())
+			}
+			script = append(script, val.L(val.Int(j), val.N(3)))
+			ops := []val.V{
+				val.L(val.N(1), val.N(0), val.S("7")), val.L(val.N(2), val.N(0), val.S("t")), val.L(val.N(3), val.N(0), val.Z(1_500_000_000)),
+				val.L(val.N(0), val.N(0), val.N(1), val.L(val.S("a comment"))), dataOp(0, "secret of another subscriber\nsecond secret line"),
+				val.L(val.N(11), val.N(0), val.List(script)),
+				val.L(val.N(5), val.N(0)), dataOp(1, "hello\nworld"),
+			}
+			c.Count("directed:failed-write-then-next-message")
 			c.Emit(val.List(ops))
 		}
 	}
